@@ -258,6 +258,7 @@ func runC02(c *Ctx) {
 
 	// ---- R02.4 / R02.5: every completion delivered anywhere is classified by whose mailbox it goes to
 	c.deliveryRules("R02.4", "R02.5")
+	c.inflightRemovalRule("R02.5")
 
 	// ---- R02.6
 	c.arrivalOrderRule("R02.6")
@@ -768,4 +769,18 @@ func (c *Ctx) allOriginsOf(v ssa.Value, fields []*types.Var, pred func(apath) bo
 		}
 	}
 	return true
+}
+
+// inflightRemovalRule: an entry leaves the in-flight table only together with a completion delivered
+// to its mailbox (before or after, on every path of the activity). An entry that is merely deleted
+// (e.g. "the write failed, forget it") belongs to a caller that is never answered — not by a response,
+// not by the failer on connection loss, not by the client's close.
+func (c *Ctx) inflightRemovalRule(rule string) {
+	p, r := c.P, c.R
+	for _, u := range usesOfKind(p.uses(r.FInflight), "delete") {
+		construct := fmt.Sprintf("%s: removal of an in-flight entry", fname(u.Fn))
+		before := mustPrecedeIP(u.At, c.isCompletion, 0)
+		after := mustFollowFrom(u.At, c.isCompletion) == nil
+		c.check(before || after, rule, construct, c.ipos(u.At), "accompanied by a completion on every path", "an in-flight entry is removed without a completion being delivered to its caller on every path: that call is never answered — neither by a response nor by the failer on connection loss or close")
+	}
 }
